@@ -16,13 +16,22 @@ def rnd_mac(rng, unicast=True):
     return bytes(b)
 
 
-def rnd_ip4(rng):
+SPECIAL4 = [bytes(4), b"\xff\xff\xff\xff", bytes([127, 0, 0, 1]), bytes([224, 0, 0, 1]), bytes([169, 254, 1, 1]), bytes([0, 0, 0, 1])]
+
+
+def rnd_ip4(rng, special=0.0):
+    if special and rng.random() < special:
+        return rng.choice(SPECIAL4)
     return bytes([rng.choice([10, 172, 192, 1, 100, 203, rng.randrange(1, 224)]), rng.getrandbits(8), rng.getrandbits(8),
                   rng.randrange(1, 255)])
 
 
-def rnd_ip6(rng):
-    k = rng.randrange(4)
+def rnd_ip6(rng, special=0.0):
+    if special and rng.random() < special:
+        return rng.choice([bytes(16), bytes(15) + b"\x01", bytes(12) + rnd_ip4(rng), pkt.ip("ff02::1"), pkt.ip("fe80::1"), pkt.ip("64:ff9b::") [:12] + rnd_ip4(rng)])
+    k = rng.randrange(5)
+    if k == 4:
+        return bytes(12) + rnd_ip4(rng)          # IPv4-compatible ::a.b.c.d
     if k == 0:
         return bytes.fromhex("20010db8") + bytes(rng.getrandbits(8) for _ in range(12))
     if k == 1:
@@ -40,12 +49,15 @@ def rnd_key(rng):
     return (rng.getrandbits(64), rng.getrandbits(64))
 
 
-def rnd_config(rng, selfips=None, deny=None, logger=None, level=None, n4=2, n6=2):
+def rnd_config(rng, selfips=None, deny=None, logger=None, level=None, n4=2, n6=2, single_family=False):
     """selfips/deny: None = decide at random, False = absent, True = present."""
     mac = rnd_mac(rng)
     s = None
     if selfips is True or (selfips is None and rng.random() < 0.5):
-        s = [rnd_ip4(rng) for _ in range(rng.randrange(1, n4 + 1))] + [rnd_ip6(rng) for _ in range(rng.randrange(1, n6 + 1))]
+        k = rng.random() if single_family else 0.0
+        # both families; on request sometimes a list with IPv4 addresses only or IPv6 addresses only
+        s = ([rnd_ip4(rng) for _ in range(rng.randrange(1, n4 + 1))] if k < 0.9 else []) + \
+            ([rnd_ip6(rng) for _ in range(rng.randrange(1, n6 + 1))] if k < 0.8 or k >= 0.9 else [])
     d = None
     if deny is True or (deny is None and rng.random() < 0.3):
         d = [rnd_ip4(rng) for _ in range(rng.randrange(1, 3))] + [rnd_ip6(rng) for _ in range(rng.randrange(1, 3))]
@@ -66,10 +78,10 @@ def endp(rng, cfg, v6, in_scope=True):
     else:
         sip = rnd_ip6(rng) if v6 else rnd_ip4(rng)
     while True:
-        cip = rnd_ip6(rng) if v6 else rnd_ip4(rng)
+        cip = rnd_ip6(rng, special=0.03) if v6 else rnd_ip4(rng, special=0.03)
         if not cfg.deny or cip not in cfg.deny:
             break
-    return pkt.Endp(rnd_mac(rng), cfg.mac, cip, sip)
+    return pkt.Endp(rnd_mac(rng), cfg.mac, cip, sip, fuzz=rng)
 
 
 # ------------------------------------------------------------------------------------------------
